@@ -144,10 +144,10 @@ def make_case_model(case, rng):
     mjm = gen.compile_xml(xml)
     if mjm is None:
       return None
-    z0 = -2.85 if (opts["hfield"] and not opts["plane"]) else 0.05
+    z0 = -2.72 if (opts["hfield"] and not opts["plane"]) else 0.05
     qs = []
     for w in range(nworld):
-      q = _col.place_crowd(mjm, info, rng, extent=rng.choice([0.25, 0.4, 0.6]), z0=z0)
+      q = _col.place_crowd(mjm, info, rng, extent=rng.choice([0.45, 0.6, 0.8]), z0=z0)
       qs.append(q)
     if opts["hfield"] and opts["plane"]:
       pass
@@ -200,6 +200,17 @@ def _match(pa, pb):
   return out
 
 
+def _minsize(mjm, g):
+  t = int(mjm.geom_type[g])
+  if t in (0, 1):
+    return 1.0
+  if t == 7:
+    return 0.1
+  sz = mjm.geom_size[g]
+  n = {2: 1, 3: 1, 5: 2, 4: 3, 6: 3}[t]  # capsule: radius only
+  return float(np.min(sz[:n]))
+
+
 def classify(t1, t2, flagset):
   """-> (numeric class 'prim'|'ccd', strict(bool), reason when loose)."""
   pair = (t1, t2)
@@ -240,8 +251,16 @@ def compare_world(rec, case, mjm, qpos, got, w, rng):
     ctx = f"world {w} geoms ({g1},{g2}) {pname} flags={flagset}"
     libccd_ref = flagset == "nonative" and num == "ccd"
     xsig = ":explicit-pair" if pid >= 0 else ""
-    if t1 == "hfield":
-      xsig += ":margin>0" if margin > 0 else ":margin=0"
+    if t1 == "hfield" and thr > 0:
+      # MuJoCo raises the prisms by margin(+gap) and reports the distance to the raised surface (its dist is smaller
+      # than the surface distance by (margin+gap)*n_z): no usable reference for these pairs
+      rec.count("unjudged:hfield_margin_reference_quirk")
+      if ib:
+        rec.cover("contacts:" + pname, len(ib))
+      continue
+    if t1 not in ("plane", "hfield") and np.linalg.norm(mjd.geom_xpos[g1] - mjd.geom_xpos[g2]) < 1e-7:
+      rec.count("unjudged:coincident_centres")  # fully degenerate for GJK/EPA in both engines
+      continue
     rec.check()
     # ---- existence
     if not ia or not ib:
@@ -261,7 +280,7 @@ def compare_world(rec, case, mjm, qpos, got, w, rng):
           rec.count("pair_borderline")
           continue
         rec.viol(
-          f"missing-pair:{pname}:{band(dmin, margin, gap)}{xsig}",
+          f"missing-pair:{'explicit-pair' if pid >= 0 else pname}:{band(dmin, margin, gap)}",
           f"MuJoCo reports {len(ia)} contact(s), MJWarp none; dist={dmin:.6g} margin={margin:.4g} gap={gap:.4g} {ctx}",
           dist=ref["dist"][ia], pos=ref["pos"][ia],
         )  # fmt: skip
@@ -280,7 +299,7 @@ def compare_world(rec, case, mjm, qpos, got, w, rng):
           rec.count("pair_borderline")
           continue
         rec.viol(
-          f"spurious-pair:{pname}:{band(dmin, margin, gap)}{xsig}",
+          f"spurious-pair:{'explicit-pair' if pid >= 0 else pname}:{band(dmin, margin, gap)}",
           f"MJWarp reports {len(ib)} contact(s), MuJoCo none; mjwarp dist={dmin:.6g} mj_geomDistance={dref} margin={margin:.4g} gap={gap:.4g} {ctx}",
           dist=got["dist"][ib], pos=got["pos"][ib],
         )  # fmt: skip
@@ -306,6 +325,16 @@ def compare_world(rec, case, mjm, qpos, got, w, rng):
         rec.viol("dim", f"contact dim {int(got['dim'][b])} vs MuJoCo {int(ref['dim'][a0])} {ctx}")
     if pid >= 0:
       rec.cover("explicit_pair_contacts", len(ib))
+    if t1 == "hfield":
+      # height fields: MJWarp keeps at most 4 of the per-prism contacts MuJoCo reports (deepest + 3 spread out)
+      if libccd_ref:
+        rec.count("unjudged:libccd_reference")
+        continue
+      if float(ref["dist"][ia].min()) < -0.5 * _minsize(mjm, g2):
+        rec.count("unjudged:deep_penetration")  # a geom deep inside a non-convex terrain has no well-defined contact
+        continue
+      _hfield(rec, ref, ia, got, ib, xsig, ctx)
+      continue
     # ---- deepest contact
     a = ia[int(np.argmin(ref["dist"][ia]))]
     b = ib[int(np.argmin(got["dist"][ib]))]
@@ -320,40 +349,45 @@ def compare_world(rec, case, mjm, qpos, got, w, rng):
     if libccd_ref:
       rec.count("unjudged:libccd_reference")
       continue
-    size2 = float(np.min(mjm.geom_size[g2][mjm.geom_size[g2] > 0])) if np.any(mjm.geom_size[g2] > 0) else 0.05
-    deep = dref < -0.5 * size2
-    if deep and (num == "ccd" or t1 == "hfield"):
+    deep = dref < -0.5 * min(_minsize(mjm, g1), _minsize(mjm, g2))
+    if deep and num == "ccd":
       rec.count("unjudged:deep_penetration")
       continue
-    cls = num if t1 != "hfield" else "hfield" + xsig
-    verdict = cmp.judge(rec, f"dist[{cls}]", dgot, dref, allow[0], noise_d * C_NOISE_SCALE, ctx=ctx)
-    if verdict == "viol" and t1 not in ("plane", "hfield"):
-      # is MJWarp's answer a valid, better separating direction than MuJoCo's?
-      o1, o2 = _col.geo_of(mjm, mjd, g1), _col.geo_of(mjm, mjd, g2)
-      gapn = _col.support_gap(o1, o2, np.asarray(ngot, dtype=np.float64) / max(np.linalg.norm(ngot), 1e-12))
-      if abs(gapn - dgot) < 10 * allow[0] and dgot > dref:
-        rec.violations.pop()
-        rec.count("deepest_better_than_reference")
-        continue
+    cls = num
+    vd = cmp.judge(rec, f"dist[{cls}]", dgot, dref, allow[0], noise_d * C_NOISE_SCALE, ctx=ctx)
+    nviol_before = len(rec.violations)
     grazing = abs(dref) < 2e-6 and num == "ccd"
+    vn = "ok"
     if grazing:
       rec.count("unjudged:grazing_normal")
     else:
-      cmp.judge(rec, f"normal[{cls}]", ngot, nref, allow[2], noise_n * C_NOISE_SCALE, sig_prefix="", ctx=ctx)
+      vn = cmp.judge(rec, f"normal[{cls}]", ngot, nref, allow[2], noise_n * C_NOISE_SCALE, sig_prefix="", ctx=ctx)
+    if (vd == "viol" or vn == "viol") and t1 != "plane":
+      # Arbitration with float64 support functions: the signed distance of two convex shapes is the maximum over unit
+      # directions n of gap(n) = min_{p2} n.p2 - max_{p1} n.p1. MJWarp's answer stands if its dist is the gap along its
+      # own normal and that gap is not smaller than the gap along MuJoCo's normal (MuJoCo's multi-contact manifolds
+      # snap the normal to a face and report per-point depths, which need not be the deepest direction).
+      o1, o2 = _col.geo_of(mjm, mjd, g1), _col.geo_of(mjm, mjd, g2)
+      un = np.asarray(ngot, dtype=np.float64)
+      un = un / max(np.linalg.norm(un), 1e-12)
+      gap_got = _col.support_gap(o1, o2, un)
+      gap_ref = _col.support_gap(o1, o2, np.asarray(nref, dtype=np.float64))
+      if abs(gap_got - dgot) < 10 * allow[0] and gap_got >= gap_ref - 10 * allow[0]:
+        nv = (vd == "viol") + (vn == "viol")
+        del rec.violations[len(rec.violations) - nv :]
+        rec.count("deepest_differs_but_valid_and_not_worse")
+        continue
     # ---- counts / positions
     if len(ia) != len(ib):
       if strict:
         rec.check()
-        rec.viol(f"count:{pname}", f"{len(ib)} contacts vs MuJoCo {len(ia)} {ctx}", mj_dist=ref["dist"][ia], mjw_dist=got["dist"][ib])
+        sub = ":upper-corners-reported" if (pname == "plane-box" and len(ib) > 4) else ""
+        rec.viol(f"count:{pname}{sub}", f"{len(ib)} contacts vs MuJoCo {len(ia)} {ctx}", mj_dist=ref["dist"][ia], mjw_dist=got["dist"][ib])
       else:
         rec.count("count_differs_allowed:" + why)
-        if t1 == "hfield":
-          _subset(rec, ref, ia, got, ib, allow, ctx)
       continue
     if not strict and len(ia) > 1:
       rec.count("manifold_not_compared:" + why)
-      if t1 == "hfield":
-        _subset(rec, ref, ia, got, ib, allow, ctx)
       continue
     pa, pb = ref["pos"][ia], got["pos"][ib]
     order = _match(pa, pb)
@@ -378,15 +412,32 @@ def compare_world(rec, case, mjm, qpos, got, w, rng):
   return ncontact_ref
 
 
-def _subset(rec, ref, ia, got, ib, allow, ctx):
-  """Every MJWarp height-field contact must coincide with one of MuJoCo's per-prism contacts."""
+def _hfield(rec, ref, ia, got, ib, xsig, ctx):
+  """Every MJWarp height-field contact must coincide with one of MuJoCo's per-prism contacts, and MuJoCo's deepest
+  contact must be among them (MJWarp's first contact is the minimum over the prisms)."""
+  tol_pos, tol_dist = 30 * ALLOW_CCD[1], 30 * ALLOW_CCD[0]
   for b in ib:
-    d = np.linalg.norm(ref["pos"][ia] - got["pos"][b], axis=1) + np.abs(ref["dist"][ia] - got["dist"][b])
+    dp = np.linalg.norm(ref["pos"][ia] - got["pos"][b], axis=1)
+    dd = np.abs(ref["dist"][ia] - got["dist"][b])
+    dn = np.abs(ref["frame"][ia][:, :3] - got["frame"][b][:3]).max(axis=1)
+    score = np.maximum(np.maximum(dp / tol_pos, dd / tol_dist), dn / (30 * ALLOW_CCD[2]))
     rec.check()
-    r = float(d.min()) / (30 * allow[1])
+    r = float(score.min())
     rec.worst("hfield_subset", r)
     if r > 1:
-      rec.viol("hfield:contact-not-in-reference", f"height-field contact at {got['pos'][b]} dist {got['dist'][b]:.6g} has no MuJoCo counterpart (nearest {d.min():.3g}) {ctx}")
+      into = float(got["frame"][b][2]) < -0.5  # the height field geom is never rotated in these scenes: its z is world z
+      rec.viol(
+        "hfield:contact-normal-into-terrain" if into else "hfield:contact-not-in-reference" + xsig,
+        f"height-field contact pos {got['pos'][b]} dist {got['dist'][b]:.6g} normal {got['frame'][b][:3]} has no MuJoCo counterpart (best score {r:.3g}) {ctx}",
+        mj_dist=ref["dist"][ia], mj_pos=ref["pos"][ia],
+      )  # fmt: skip
+  rec.check()
+  dref, dgot = float(ref["dist"][ia].min()), float(got["dist"][ib].min())
+  r = (dgot - dref) / tol_dist
+  rec.worst("hfield_deepest", r)
+  if r > 1:
+    rec.viol("hfield:deepest-contact-missed" + xsig, f"MuJoCo's deepest height-field contact dist {dref:.6g} is not reported (MJWarp deepest {dgot:.6g}) {ctx}")
+  rec.cover("hfield_pairs_judged", 1)
 
 
 def run_case(case):
